@@ -69,7 +69,7 @@ def gen_case(tp, tier):
         threads.append(ops)
     knobs = {'policy': tp.choice(C.POLICIES), 'lat': 0, 'cost': 0.0,
              'stall_pm': 0, 'epoch': 'exact', 'time_yield': False,
-             'max_steps': 400000,
+             'max_steps': 400000, 'line_manual': True,
              'line_mean': tp.choice([5, 20, 50, 200, 1000])}
     return {'mode': mode, 'threads': threads, 'knobs': knobs,
             'post': [tp.choice(NAMES) for _ in range(2)],
